@@ -17,8 +17,21 @@ Definition mass_cols (K : ktensor Qc) : Qc :=
 (* what tt_loglikelihood subtracts: np.sum(factor_matrices[0]) of the returned model *)
 Definition mass_factor0 (K : ktensor Qc) : Qc :=
   sum_over q0 Qcplus (nth 0 (kfactors K) []) (fun row => sum_over q0 Qcplus row (fun x => x)).
+(* representation-independent form of that term: sum_r w_r * colsum_0(r) — equals np.sum(factor_matrices[0]) when the weights are absorbed
+   into mode 0 (all w_r = 1), and is what tt_loglikelihood subtracts after normalising a COPY when the returned model keeps explicit
+   weights (unit or zero columns everywhere) *)
+Definition mass_w0 (K : ktensor Qc) : Qc :=
+  sum_n q0 Qcplus (krank K) (fun r => nth r (kweights K) q0 * qcolsum (nth 0 (kfactors K) []) r).
+Definition col_unit_or_zero (tol : Qc) (A : list (list Qc)) (r : nat) : bool :=
+  qclose tol (qcolsum A r) q1 || Qc_eq_bool (qcolsum A r) q0.
+(* the normal form cp_apr returns: every column of every factor L1-normalised or zero; the mass of a component sits in its weight
+   (explicit weights) or in its mode-0 column (all weights 1) *)
+Definition normal_form (tol : Qc) (K : ktensor Qc) : bool :=
+  forallb (fun A => forallb (col_unit_or_zero tol A) (seq 0 (krank K))) (tl (kfactors K)) &&
+  (forallb (Qc_eq_bool q1) (kweights K) || forallb (col_unit_or_zero tol (nth 0 (kfactors K) [])) (seq 0 (krank K))).
 Definition mass_ok (tol : Qc) (K : ktensor Qc) (harness_mass : Qc) : bool :=
-  Qc_eq_bool (mass_direct K) (mass_cols K) && qclose tol (mass_factor0 K) (mass_direct K) && qclose tol harness_mass (mass_direct K).
+  Qc_eq_bool (mass_direct K) (mass_cols K) && qclose tol (mass_w0 K) (mass_direct K) && qclose tol harness_mass (mass_direct K) &&
+  normal_form tol K.
 (* KKT bookkeeping: lens = lengths of the KKT lists for maxiters = 1, 2, 3 *)
 Definition kkt_ok (kkt : list Qc) (maxiters : nat) : bool :=
   Nat.leb 1 (length kkt) && Nat.leb (length kkt) maxiters && forallb (qleb q0) kkt.
